@@ -96,6 +96,7 @@ MUTANTS: Dict[str, List[M]] = {
         ("ActionTypeHint no longer converts ValueError", "_typehints.py", "            except (TypeError, ValueError) as ex:\n                if self._is_valid_string(val):", "            except TypeError as ex:\n                if self._is_valid_string(val):", "C03.R4"),
     ],
     "C04": [
+        ("one unreadable default config file drops them all again (F64)", "_core.py", "        readable_files = []\n        for key, file in default_config_files:\n            with suppress(TypeError):\n                readable_files.append((key, Path(file, mode=get_config_read_mode())))\n        return readable_files\n", "        with suppress(TypeError):\n            return [(k, Path(v, mode=get_config_read_mode())) for k, v in default_config_files]\n        return []\n", "C04.j"),
         ("parse_args merge swapped", "_core.py", "cfg = self.merge_config(namespace, cfg)", "cfg = self.merge_config(cfg, namespace)", "C04.a"),
         ("subcommand merge swapped", "_actions.py", "cfg[key] = subparser.merge_config(cfg.get(key, Namespace()), subnamespace)", "cfg[key] = subparser.merge_config(subnamespace, cfg.get(key, Namespace()))", "C04.a"),
         ("default config merge swapped", "_core.py", "cfg = self.merge_config(cfg_file, cfg)", "cfg = self.merge_config(cfg, cfg_file)", "C04.a"),
